@@ -70,6 +70,11 @@ def check(ctx):
         _score_checks(ctx, N, cls, pkg, axis, S, "PCovFPS")
     _argmax_check(ctx)
     _shared(ctx, N)
+    # PCov-FPS measures distances in the PCovR-modified covariance / Gram matrix: those two functions
+    # equal their documented formulas (shared with C03 / C04)
+    from . import pcovr_common as pc
+
+    pc.gram_cov(ctx, N, "NF-DIST")
 
 
 def _score_checks(ctx, N, cls, pkg, axis, S, name):
